@@ -359,7 +359,13 @@ class Translator:
         env2.vars[pyname] = (cn, t)
         # any refinement mentioning this name is stale
         env2.refined = {p: v for p, v in env2.refined.items() if p != pyname and not p.startswith(pyname + '.')}
-        return 'let %s := %s in\n%s' % (cn, coqtxt, k(env2))
+        ann = ''
+        try:
+            if t is not None and None not in _flat(t):
+                ann = ' : ' + coq_type(t)
+        except ValueError:
+            ann = ''
+        return 'let %s%s := %s in\n%s' % (cn, ann, coqtxt, k(env2))
 
     def stmt(self, st, env, k):
         s = self.s
@@ -638,6 +644,19 @@ class Translator:
             return ('Fixpoint %s (fuel : nat) %s {struct fuel} : res %s :=\nmatch fuel with\n| O => Err OutOfFuel\n| S fuel =>\n%s\nend.\n'
                     % (s.coq_name, ' '.join(params), rett, body))
         return 'Definition %s %s : res %s :=\n%s.\n' % (s.coq_name, ' '.join(params), rett, body)
+
+
+def _flat(t):
+    if isinstance(t, tuple):
+        out = []
+        for x in t[1:]:
+            if isinstance(x, tuple) and x and not isinstance(x[0], str):
+                for y in x:
+                    out += _flat(y)
+            else:
+                out += _flat(x)
+        return out
+    return [t]
 
 
 def _load(t):
